@@ -6,7 +6,7 @@
      sumf f a n   : f a + f (a+1) + ... + f (a+n-1) *)
 From Coq Require Import QArith Qcanon List Arith.
 From Verif.lib Require Import Bsp.
-From Verif.C02 Require Import Proofs Proofs_ref Proofs_ndu Proofs_single.
+From Verif.C02 Require Import Proofs Proofs_ref Proofs_ndu Proofs_single Proofs_deriv.
 Import ListNotations.
 Open Scope Qc_scope.
 
@@ -136,3 +136,41 @@ Theorem colloc_row_values : forall kv p u j,
   nth j (colloc_row kv p 0 u) 0 = Nref kv p j u.
 Proof. exact colloc_row_values_l. Qed.
 Print Assumptions colloc_row_values.
+
+(* The closed formula behind the derivative loop (NURBS book eq. 2.10), derived from the derivative
+   recursion dNref for EVERY knot vector (no sortedness needed; x/0 = 0 on both sides):
+   N^(k)_{i,p} = p(p-1)..(p-k+1) * sum_{j=0..k} a_{k,j} N_{i+j,p-k},
+   a_{0,0} = 1, a_{k,j} = (a_{k-1,j} - a_{k-1,j-1}) / (t_{i+j+p-k+1} - t_{i+j}). *)
+Theorem dN_formula : forall kv p i u k, (k <= p)%nat ->
+  dNref kv k p i u = Zq (Ffac p k) * sumf (fun j => acoef kv p i k j * Nref kv (p - k) (j + i) u) 0 (S k).
+Proof. exact dN_formula_l. Qed.
+Print Assumptions dN_formula.
+
+(* Correctness of the a1/a2 derivative loop of bspline_active_deriv_single (NURBS book A2.3), for
+   EVERY derivative order k <= nd (including k > p, where the loop body is empty and the result 0):
+   entry [k][r] of active_deriv is the k-th derivative of the r-th active function. *)
+Theorem active_derivs_eq_spec : forall kv p u nd k r,
+  kv_ok kv p -> kn kv 0 <= u -> u <= kn kv (length kv - 1) -> (k <= nd)%nat -> (r <= p)%nat ->
+  nth r (nth k (active_deriv kv p u nd) []) 0 = dNref kv k p (findspan kv p u - p + r) u.
+Proof. exact active_derivs_eq_spec_l. Qed.
+Print Assumptions active_derivs_eq_spec.
+
+Theorem active_deriv_row : forall kv p u nd k,
+  kv_ok kv p -> kn kv 0 <= u -> u <= kn kv (length kv - 1) -> (k <= nd)%nat ->
+  nth k (active_deriv kv p u nd) [] = map (fun r => dNref kv k p (findspan kv p u - p + r) u) (seq 0 (S p)).
+Proof. exact active_deriv_row_l. Qed.
+Print Assumptions active_deriv_row.
+
+(* Derivative collocation rows of every order: B^(k)[u, j] = N^(k)_{j,p}(u) for every column j. *)
+Theorem colloc_row_derivs : forall kv p k u j,
+  kv_ok kv p -> kn kv 0 <= u -> u <= kn kv (length kv - 1) -> (j < numdofs kv p)%nat ->
+  nth j (colloc_row kv p k u) 0 = dNref kv k p j u.
+Proof. exact colloc_row_derivs_l. Qed.
+Print Assumptions colloc_row_derivs.
+
+(* The single-function route and the all-active/collocation route agree exactly (both equal Nref). *)
+Theorem routes_agree : forall kv p u j,
+  open_kv kv p = true -> kn kv 0 <= u -> u <= kn kv (length kv - 1) -> (j < numdofs kv p)%nat ->
+  single_ev kv p j u = nth j (colloc_row kv p 0 u) 0.
+Proof. exact routes_agree_l. Qed.
+Print Assumptions routes_agree.
